@@ -46,7 +46,8 @@ def _gen(rng, n):
         elif r < 0.36:
             ops.append(["addL", v, k, rng.choice(VALS)])
         elif r < 0.58:
-            ops.append(["find", v, k])
+            # the key as a literal, computed, taken from a list, or held in a variable: the same key either way
+            ops.append(["find", v, k, rng.choice(["lit", "lit", "computed", "elem", "var"])])
         elif r < 0.68:
             ops.append(["remove", v, k])
         elif r < 0.76:
@@ -74,6 +75,27 @@ def cases(tier, seed):
 
 def init_shard(tier, seed):
     return {}
+
+
+def _key_text(key, form):
+    """Source text that evaluates to the key: literal, computed, an element of a list, or through a variable."""
+    lit = render(key)
+    if form == "computed":
+        if key[0] == "I":
+            return "(%d+%d)" % (key[1] - 1, 1) if key[1] >= 1 else "((%d)+1)" % (key[1] - 1)
+        if key[0] == "R":
+            return "(%r%%2)" % (key[1] * 2) if key[1] * 2 == int(key[1] * 2) else "(%r+0.0)" % key[1]
+        if key[0] == "S" and len(key[1]) >= 2:
+            return "(%s,%s)" % (render(["S", key[1][:1]]), render(["S", key[1][1:]]))
+        return "(%s)" % lit
+    if form == "elem":
+        inl = render(key, True)
+        if key[0] in ("I", "R"):
+            return "([%s %s]@1)" % ("9.25" if key[0] == "R" else "99", inl)
+        return "([%s %s]@0)" % (inl, inl)
+    if form == "var":
+        return "{[vfk];vfk::%s;vfk}()" % lit
+    return lit
 
 
 def _lit(items):
@@ -126,7 +148,8 @@ def run_case(ctx, case):
             if sum(1 for x in var.values() if x == var[op[1]]) > 1:
                 cnt["alias_updates"] = cnt.get("alias_updates", 0) + 1
         elif t == "find":
-            txt = "%s?%s" % (op[1], render(op[2]))
+            txt = "%s?%s" % (op[1], _key_text(op[2], op[3] if len(op) > 3 else "lit"))
+            cnt["lookup_key_form:" + (op[3] if len(op) > 3 else "lit")] = cnt.get("lookup_key_form:" + (op[3] if len(op) > 3 else "lit"), 0) + 1
             texts.append(txt)
             r = kl.ev(k, txt)
             m = models[var[op[1]]]
